@@ -190,7 +190,7 @@ def step (d : DS) (line : String) : DS × String :=
       | some (txs, []) =>
         if txs.any (fun t => isOpaqueTyp t.typ) then (d, "unmodelled")
         else if hasEqualHashPair fl txs then (d, "unmodelled")
-        else if txs.length > 12 then (d, "unmodelled")
+        else if (sortTxsAny fl txs).isNone then (d, "unmodelled")
         else
           let env : Env := ⟨fa, fee, noOther⟩
           let ids := fun (hh : Nat) => (d.wesc.filter (fun e => e.1 == hh)).map (·.2)
@@ -252,8 +252,9 @@ def step (d : DS) (line : String) : DS × String :=
       match sortItems? n r with
       | some (txs, []) =>
         if hasEqualHashPair fl txs then (d, "unmodelled")
-        else if txs.length > 12 then (d, "unmodelled")
-        else (d, ",".intercalate ((sortTxs fl txs).map (fun t => hex32 t.hash)))
+        else match sortTxsAny fl txs with
+          | none => (d, "unmodelled")
+          | some out => (d, ",".intercalate (out.map (fun t => hex32 t.hash)))
       | _ => (d, "bad-op")
     | _, _ => (d, "bad-op")
   | _ => (d, "bad-op")
